@@ -76,8 +76,10 @@ struct Actor {
   loader_events: AtomicU32,
   /// suspend at the n-th event (1-based); 0 = never
   plan_nth: u32,
-  /// suspend at the first entry into the loader body
+  /// suspend at the first entry into the loader body / into a user closure
   plan_loader: bool,
+  plan_closure: bool,
+  closure_events: AtomicU32,
   fired: AtomicBool,
   /// kind of the event at which it was suspended (0 = none, 1.. = EvKind + 1)
   paused_kind: AtomicU32,
@@ -86,8 +88,8 @@ struct Actor {
 }
 
 impl Actor {
-  fn new(plan_nth: u32, plan_loader: bool) -> Arc<Actor> {
-    Arc::new(Actor { count: AtomicU32::new(0), loader_events: AtomicU32::new(0), plan_nth, plan_loader, fired: AtomicBool::new(false), paused_kind: AtomicU32::new(0), st: Mutex::new(ActorState::default()), cv: Condvar::new() })
+  fn new(plan_nth: u32, plan_loader: bool, plan_closure: bool) -> Arc<Actor> {
+    Arc::new(Actor { count: AtomicU32::new(0), loader_events: AtomicU32::new(0), plan_nth, plan_loader, plan_closure, closure_events: AtomicU32::new(0), fired: AtomicBool::new(false), paused_kind: AtomicU32::new(0), st: Mutex::new(ActorState::default()), cv: Condvar::new() })
   }
   fn event(&self, kind: EvKind) {
     let n = self.count.fetch_add(1, Ordering::SeqCst) + 1;
@@ -95,6 +97,10 @@ impl Actor {
     if kind == EvKind::Loader {
       let l = self.loader_events.fetch_add(1, Ordering::SeqCst) + 1;
       hit = hit || (self.plan_loader && l == 1);
+    }
+    if kind == EvKind::Closure {
+      let l = self.closure_events.fetch_add(1, Ordering::SeqCst) + 1;
+      hit = hit || (self.plan_closure && l == 1);
     }
     if hit && !self.fired.swap(true, Ordering::SeqCst) {
       self.paused_kind.store(kind as u32 + 1, Ordering::SeqCst);
@@ -305,15 +311,27 @@ pub enum SOp {
   Advance(u16),
 }
 
+/// Where an operation is suspended.
+#[derive(Clone, Copy, Debug, Serialize, Deserialize, PartialEq, Eq)]
+pub enum PausePt {
+  /// index into the events (key Hash / Eq / Clone evaluations, closure and loader entries) the
+  /// operation performs when it runs first on the state the setup left
+  Nth(u16),
+  /// the first entry into a user closure (compute / get / or_insert_with closure, entry-guard dwell)
+  Closure,
+  /// the first entry into the loader body
+  Loader,
+}
+
 #[derive(Clone, Debug, Serialize, Deserialize)]
 pub struct Scenario {
   pub cfg: PCfg,
   pub setup: Vec<SOp>,
   pub a: POp,
-  /// pause plan of A: index into the events A performs when it runs first (None = no pause)
-  pub pa: Option<u16>,
+  /// pause plan of A (None = no pause)
+  pub pa: Option<PausePt>,
   pub b: POp,
-  pub pb: Option<u16>,
+  pub pb: Option<PausePt>,
   /// virtual-clock step (ms) performed by the harness while A is suspended and B is under way
   pub step_ms: Option<u16>,
   pub suffix: Vec<POp>,
@@ -520,6 +538,15 @@ fn normalise(sc: &mut Scenario) {
   };
   fix_maint(&mut sc.a);
   fix_maint(&mut sc.b);
+  // Exclusion by construction (genuine defect found by this engine, witness
+  // /verif/findings/cachex-C12-stale-hit-skips-refresh-on-contended-stripe.json): a stale hit only
+  // try_locks its pending-loads stripe and silently gives up the refresh when another key's load holds
+  // that stripe.  With a grace window configured, two racing fetch_with calls work on the same key.
+  if sc.cfg.swr_ms.is_some() {
+    if let (POp::FetchWith { k: ka, .. }, POp::FetchWith { k: kb, .. }) = (&sc.a, &mut sc.b) {
+      *kb = *ka;
+    }
+  }
   if sc.step_ms.is_some() {
     // clock-step scenarios: the two operations must commute (different keys, no operation that
     // spans keys), so that each result depends only on the time at which that operation took effect
@@ -971,7 +998,10 @@ struct Plan {
   /// pause of the first / second operation: n-th event (0 = none) or first loader entry
   first_nth: u32,
   first_loader: bool,
+  first_closure: bool,
   second_nth: u32,
+  second_loader: bool,
+  second_closure: bool,
   /// time (ns after the setup) at which each operation runs in a sequential reference of a
   /// clock-step scenario; None = wherever the clock stands
   t_a: Option<u64>,
@@ -999,6 +1029,7 @@ struct RunInfo {
   len_first: u32,
   len_second: u32,
   first_loader_events: u32,
+  first_closure_events: u32,
   first_reached: bool,
   first_paused_at: Option<EvKind>,
   second_done_in_pause: bool,
@@ -1077,10 +1108,10 @@ fn run_in(w: &Arc<World>, sc: &Scenario, plan: Plan) -> Result<(Outcome, RunInfo
   let t1 = now + sc.step_ms.map_or(0, |m| m as u64 * MS);
   let (op1, op2, base1, base2) = if plan.b_first { (&sc.b, &sc.a, BASE_B, BASE_A) } else { (&sc.a, &sc.b, BASE_A, BASE_B) };
   let (time1, time2) = if plan.b_first { (plan.t_b, plan.t_a) } else { (plan.t_a, plan.t_b) };
-  let act1 = Actor::new(plan.first_nth, plan.first_loader);
-  let act2 = Actor::new(plan.second_nth, false);
+  let act1 = Actor::new(plan.first_nth, plan.first_loader, plan.first_closure);
+  let act2 = Actor::new(plan.second_nth, plan.second_loader, plan.second_closure);
   let (r1, r2): (Res, Res);
-  let threaded = plan.first_nth != 0 || plan.first_loader || plan.second_nth != 0;
+  let threaded = plan.first_nth != 0 || plan.first_loader || plan.first_closure || plan.second_nth != 0 || plan.second_loader || plan.second_closure;
   if !threaded {
     // ---- sequential reference ----
     if let Some(t) = time1 {
@@ -1187,6 +1218,7 @@ fn run_in(w: &Arc<World>, sc: &Scenario, plan: Plan) -> Result<(Outcome, RunInfo
   info.len_first = act1.count.load(Ordering::SeqCst);
   info.len_second = act2.count.load(Ordering::SeqCst);
   info.first_loader_events = act1.loader_events.load(Ordering::SeqCst);
+  info.first_closure_events = act1.closure_events.load(Ordering::SeqCst);
   *w.sh.owner.lock().unwrap() = None;
   w.clock.store(t1.max(t0), Ordering::SeqCst);
   let (ra, rb) = if plan.b_first { (r2, r1) } else { (r1, r2) };
@@ -1311,29 +1343,31 @@ pub fn execute(sc: &Scenario) -> Result<CaseReport, Failure> {
   let (ref_ab, info_ab) = run_or!(Plan { b_first: false, ..Plan::default() });
   // (B;A is only executed when it is needed: to index B's pause plan, or when A;B does not match)
   let mut ref_ba: Option<(Outcome, RunInfo)> = None;
-  if sc.pb.is_some() {
+  if matches!(sc.pb, Some(PausePt::Nth(_))) {
     ref_ba = Some(run_or!(Plan { b_first: true, ..Plan::default() }));
   }
   let len_a = info_ab.len_first;
   let len_b = ref_ba.as_ref().map_or(0, |r| r.1.len_first);
   let nth_a = match sc.pa {
-    Some(i) if len_a > 0 => 1 + vcore::idx(i, len_a as usize) as u32,
+    Some(PausePt::Nth(i)) if len_a > 0 => 1 + vcore::idx(i, len_a as usize) as u32,
     _ => 0,
   };
   let nth_b = match sc.pb {
-    Some(i) if len_b > 0 => 1 + vcore::idx(i, len_b as usize) as u32,
+    Some(PausePt::Nth(i)) if len_b > 0 => 1 + vcore::idx(i, len_b as usize) as u32,
     _ => 0,
   };
+  let (a_loader, a_closure) = (sc.pa == Some(PausePt::Loader) && info_ab.first_loader_events > 0, sc.pa == Some(PausePt::Closure) && info_ab.first_closure_events > 0);
+  let (b_loader, b_closure) = (sc.pb == Some(PausePt::Loader), sc.pb == Some(PausePt::Closure));
   if info_ab.busy || ref_ba.as_ref().map_or(false, |r| r.1.busy) {
     rep.class("pair:busy_in_reference");
     return Ok(rep);
   }
-  if nth_a == 0 {
+  if nth_a == 0 && !a_loader && !a_closure {
     rep.class("pair:no_pause_point");
     return Ok(rep);
   }
   // ---- the forced interleaving ----
-  let (conc, info) = run_or!(Plan { b_first: false, first_nth: nth_a, second_nth: nth_b, live_step: true, ..Plan::default() });
+  let (conc, info) = run_or!(Plan { b_first: false, first_nth: nth_a, first_loader: a_loader, first_closure: a_closure, second_nth: nth_b, second_loader: b_loader, second_closure: b_closure, live_step: true, ..Plan::default() });
   if info.busy {
     // documented outcome of the try_ forms while another Arc of the value is alive: no effect,
     // nothing to compare against
@@ -1487,7 +1521,14 @@ pub fn execute(sc: &Scenario) -> Result<CaseReport, Failure> {
     p = "C15";
     clause = "loader_invocations";
   }
-  let plan_txt = format!("A suspended at its event #{nth_a} of {len_a} ({:?}){}{}", info.first_paused_at, if nth_b != 0 { format!(", B planned to suspend at its event #{nth_b}") } else { String::new() }, if info.second_blocked { ", B was blocked until A resumed" } else if info.second_done_in_pause { ", B ran entirely inside A's pause" } else { "" });
+  // C12: "with stale-while-revalidate a stale value is served by fetch_with only inside the grace window
+  // and triggers a refresh whose result then replaces it": fewer loader runs than the reference
+  let total = |o: &Outcome| o.loads.values().sum::<u32>();
+  if sc.cfg.swr_ms.is_some() && d.contains(&"loader_invocations") && total(&conc) < total(best) && (prop == "C12" || p != prop.as_str()) {
+    p = "C12";
+    clause = "stale_served_without_refresh";
+  }
+  let plan_txt = format!("A suspended at {:?} (event #{nth_a} of {len_a}), reached: {:?}{}{}", sc.pa, info.first_paused_at, if sc.pb.is_some() { format!(", B planned to suspend at {:?} (event #{nth_b})", sc.pb) } else { String::new() }, if info.second_blocked { ", B was blocked until A resumed" } else if info.second_done_in_pause { ", B ran entirely inside A's pause" } else { "" });
   Err(fail(
     p,
     clause,
@@ -1520,8 +1561,29 @@ pub fn check(check: &mut Check) {
   let focus = Focus::of(&ctx.property);
   let n = ctx.tier.pick(4_000u64, 400_000u64);
   let n = std::env::var("VERIF_PAIR_CASES").ok().and_then(|s| s.parse().ok()).unwrap_or(n); // development aid
-  let out = vcore::drive(&ctx, &check.findings, 6, n, move || scenario_strategy(focus), |s| {
+  // Shrinking budget: a failing pair costs a few pause timeouts per execution and proptest may try
+  // thousands of simplifications; 25 s after the first failure only scenarios already known to fail are
+  // still executed (the final re-execution of the minimal scenario among them), every other candidate
+  // is answered "passes" at once, which ends the shrinking.
+  let first_fail: Arc<Mutex<Option<Instant>>> = Arc::new(Mutex::new(None));
+  let failing: Arc<Mutex<std::collections::BTreeSet<u64>>> = Arc::new(Mutex::new(Default::default()));
+  let survey = std::env::var("VERIF_SURVEY").is_ok();
+  let out = vcore::drive(&ctx, &check.findings, 6, n, move || scenario_strategy(focus), move |s| {
+    let h = vcore::hash_str(&serde_json::to_string(s).unwrap_or_default());
+    if !survey {
+      if let Some(t) = *first_fail.lock().unwrap() {
+        if t.elapsed() > Duration::from_secs(25) && !failing.lock().unwrap().contains(&h) {
+          return Ok(CaseReport::new());
+        }
+      }
+    }
     let r = execute(s);
+    if let Err(f) = &r {
+      if f.property == crate::current_property() {
+        first_fail.lock().unwrap().get_or_insert_with(Instant::now);
+        failing.lock().unwrap().insert(h);
+      }
+    }
     if let (Err(f), Ok(only)) = (&r, std::env::var("VERIF_ONLY_SIG")) {
       if !f.signature.contains(&only) {
         return Ok(CaseReport::new());
